@@ -2553,7 +2553,10 @@ class Binop(Elemwise):
             if not changed:
                 return
 
-            return type(parent)(type(self)(left, right), *parent.operands[1:])
+            return type(parent)(
+                self.substitute_parameters({"left": left, "right": right}),
+                *parent.operands[1:],
+            )
 
     def _node_label_args(self):
         return [self.left, self.right]
